@@ -65,4 +65,9 @@ NoStepAfterExit == \A i \in 1..Len(ev) :
    (ev[i].e \in {"b", "r", "x", "p"} /\ IsTask(ev[i].a)) => sc[task[ev[i].a].scope].open
 \* C06: done is final and agrees with the life cycle
 DoneStable == \A k \in Acts : (IsTask(k) /\ task[k].done) => task[k].res # NoSig
-=============================================================================
+\* ---------------------------------------------------------------------------
+\* Liveness (C03 "no livelock", design level): with a finite operation budget every behaviour of the kernel
+\* that keeps taking enabled steps reaches quiescence (or reports a fault).  Checked under weak fairness of Next.
+FairSpec == Spec /\ WF_vars(Next)
+Termination == <>(Quiescent \/ fault # "")
+=========================================================================
